@@ -30,6 +30,7 @@ def worker(prop, tier, seed, shard, nshards, out, only=None):
     mod = importlib.import_module("vmon.props." + prop)
     ctx = Ctx(prop, tier, seed, Findings())
     specs = mod.cases(tier)
+    ctx.solver_time_limit = getattr(mod, "SOLVER_TIME_LIMIT", 30)
     if hasattr(mod, "setup"):
         mod.setup(ctx)
     pnum = int(prop[1:])
@@ -68,6 +69,7 @@ def worker(prop, tier, seed, shard, nshards, out, only=None):
         "known_what": ctx.known_what,
         "solver_fail": dict(ctx.solver_fail),
         "inconclusive": dict(ctx.inconclusive),
+        "inconclusive_cases": ctx.inconclusive_cases,
         "maxdev": dict(ctx.maxdev),
         "sites": {"|".join(map(str, k)): v for k, v in ctx.sites.items()},
         "harness_errors": harness_errors,
@@ -82,7 +84,7 @@ def merge(parts):
     m = {
         "cases_run": 0, "cases_total": 0, "evals": collections.Counter(), "sigs": {}, "samples": [], "violations": [],
         "known": collections.Counter(), "known_what": {}, "solver_fail": collections.Counter(),
-        "inconclusive": collections.Counter(), "maxdev": {}, "sites": collections.Counter(), "harness_errors": [],
+        "inconclusive": collections.Counter(), "inconclusive_cases": [], "maxdev": {}, "sites": collections.Counter(), "harness_errors": [],
     }
     for p in parts:
         m["cases_run"] += p["cases_run"]
@@ -96,6 +98,7 @@ def merge(parts):
         m["known_what"].update(p["known_what"])
         m["solver_fail"].update(p["solver_fail"])
         m["inconclusive"].update(p["inconclusive"])
+        m["inconclusive_cases"].extend(p.get("inconclusive_cases", []))
         for k, v in p["maxdev"].items():
             m["maxdev"][k] = max(m["maxdev"].get(k, 0.0), v)
         m["sites"].update(p["sites"])
@@ -216,6 +219,7 @@ def run_parent(prop, tier, seed, nshards, replay=None):
                 "return_sites_observed": dict(sorted(m["sites"].items())),
                 "solver_failures": dict(m["solver_fail"]),
                 "case_level_inconclusive": dict(m["inconclusive"]),
+                "case_level_inconclusive_cases": m["inconclusive_cases"][:30],
                 "known_findings_observed": dict(m["known"]),
                 "inconclusive": inconcl,
                 "shards": nshards,
